@@ -6,10 +6,14 @@ c01e / c01f, nested-reference designs, and a small own corpus around full-width 
 C11 printer and compared inside Coq (Corr/C11E.v:chk_c11e) with  to_c11 (elab_export_model2 xinfo design)  - the pipeline
 model's package read in the round-trip model's types -, the hypotheses of C11E_round_trip_end_to_end_partial and c11_normal
 are evaluated, and rt_pkg is evaluated on the package.
-Codes: 0 ok, 1 the round trip is not the identity (driver: P' != P, or rt_pkg), 2 tie differs, 3 harness, 4 model contradicts
-its theorem.  No implementation driver of its own: harness/impl/c11.py already produces P and P' for a design job.
+Codes: 0 ok, 1 the round trip is not the identity (driver: P' != P), 2 tie differs, 3 harness, 4 model contradicts its theorem.
+For the designs harness/impl/c11.py already produces P and P' (source "design").
+Stream `ptext` (spec validation of Model/C11EConv.v:parse_pvalue, the reader of the parameter TEXT Base/Package.v holds): the
+driver harness/impl/c11e.py builds live vlsir ParamValue messages and prints them with harness/impl/designlib.py:pval_str; Coq
+parses the text and compares with the same message as the C11 printer reads it (code 3 on disagreement).
 """
 import json
+from decimal import Decimal
 from . import core, design as D, c01e, c01f, c11
 
 STREAM = "model_roundtrip"
@@ -64,8 +68,58 @@ def c_case(design, out):
             f"  e_impl_rt := {core.cbool(rt)} |}}")
 
 
+def ptext_values(seed, quick):
+    """ParamValues in the JSON spelling of harness/impl/c11.py: every kind pval_str prints, decimal strings in and out of
+    canonical form (str(Decimal(s)) == s), texts that look like another kind."""
+    ints = [0, 1, -1, 5, -12, 10, 100, 2 ** 63 - 1, -2 ** 63, 10 ** 18, -999]
+    vals = [["int", n] for n in ints] + [["pre", p, ["int", n]] for n in ints for p in ("UNIT", "MILLI", "YOTTA")]
+    for x in (0.0, 1.5, -2.25, 1e-300, 1e300, 5e-324, float("inf"), 0.1, 123456.789):
+        vals += [["dbl", x.hex()], ["pre", "KILO", ["dbl", x.hex()]]]
+    texts = ["", "a", "a:b", "1e3", "int:5", " x ", "pre:UNIT:i3", "lit:x", "str:", "-0", "0x1p+0", "NMOS", "d1", ":", "::", "i5", "s1.5"]
+    vals += [[k, t] for t in texts for k in ("str", "lit")]
+    decs = ["1.5", "-0.25", "1E+3", "1.5E-7", "0.000001", "1E-7", "0.0000001", "0", "0.00", "-0", "-0.0", "0E+2", "0E-9", "01.5", "1.50",
+            "1.5E+0", "15E-1", "1e3", "1E3", "1E+03", "NaN", "Infinity", "-Infinity", "sNaN", ".5", "5.", "", "-", "+1.5", " 1.5", "1.5 ",
+            "1_000", "1.2.3", "1E", "1E+", "E+3", "--1", "1.5e-7", "123456789012345678901234567890.5", "1.5E+30", "1000000", "1E+6",
+            "0.1E-5", "1.0E-6", "0.000001000", "9.99E-7", "-1E-7", "12345678901234567890", "1E+1", "10", "1.0E+1", "100E-2", "1.00"]
+    vals += [["pre", p, ["str", t]] for t in decs for p in ("UNIT", "MICRO")]
+    for k in range(300 if quick else 6000):
+        r = core.rng(seed, "C11", "ptext", k)
+        nd = r.choice([1, 1, 2, 3, 5, 8, 17, 28, 40])
+        coef = r.randrange(10 ** (nd - 1) if r.random() < 0.8 else 0, 10 ** nd)
+        d = Decimal((r.randrange(2), tuple(int(c) for c in str(coef)), r.randint(-45, 15)))
+        t = r.choice([str(d), str(d), str(d), format(d, "f"), format(d, "E"), str(d).lower(), str(d.normalize()), str(d) + "0"])
+        vals.append(["pre", r.choice(c11.PREFIXES), ["str", t]])
+    return vals
+
+
+def run_ptext(run, seed, quick):
+    vals = ptext_values(seed, quick)
+    outs = core.run_worker_sharded("c11e", [dict(values=vals[i:i + 100]) for i in range(0, len(vals), 100)])
+    rows = [r for o in outs for r in o["rows"]]
+    cases, kept, skipped = [], [], 0
+    for v, r in zip(vals, rows):
+        if r["err"] is not None or r["back"] != v:          # the message is not the one asked for (e.g. out of int64): not a case
+            skipped += 1
+            continue
+        cases.append(f"({c11.cs(r['text'])}, {c11.c_val(v)})")
+        kept.append((v, r["text"]))
+    bad = core.coq_eval_cases("C11", "ptext", IMPORTS, "ptext_case", cases, "run_cases chk_ptext", chunk=400)
+    canon = {t for v, t in kept if v[0] == "pre" and v[2][0] == "str" and "(NDec" in c11.c_num(v[2])}
+    raw = {t for v, t in kept if v[0] == "pre" and v[2][0] == "str" and "(NRaw" in c11.c_num(v[2])}
+    run.stream("ptext", len(cases), len(canon) + len(raw), skipped_not_the_message_asked_for=skipped,
+               canonical_decimal_texts=len(canon), refused_decimal_texts=len(raw), kinds=sorted({v[0] for v, _ in kept}),
+               rule="non-trivial = distinct prefixed string numbers (canonical: read as the Decimal's triple; anything else: NRaw)",
+               compared="Model/C11EConv.v:parse_pvalue on the text designlib.pval_str prints for a live ParamValue against the C11 "
+                        "printer's reading of the same message (str(Decimal(s)) == s decides NDec / NRaw on the Python side)")
+    for i, c in sorted(bad, key=lambda ic: len(kept[ic[0]][1]))[:2]:
+        run.violation("C11:ptext:" + json.dumps(kept[i][0]), f"parse_pvalue reads {kept[i][1]!r} otherwise than the C11 printer reads the message",
+                      dict(kind="spec-disagrees-with-oracle", value=kept[i][0], text=kept[i][1], failing_cases=len(bad)), found_input=False)
+
+
 def run_tie(run, tier, seed, replay=None):
     quick = tier == "quick"
+    if replay is None:
+        run_ptext(run, seed, quick)
     if replay is not None:
         if replay.get("stream") != STREAM:
             return
